@@ -16,8 +16,59 @@ ASSUMPTIONS = ["numpy aliasing itself is trusted through the translated structur
                "results of other orders left from earlier calls are not part of 'the result' of a solve (reported as observation only)"]
 
 
+def multi_object(ctx, rng):
+    """Several objects with different cutoffs created first and used afterwards, against objects used in isolation."""
+    from symfc import Symfc
+    from gens import atoms_of, base_cells, make_supercell
+    from reference import min_image_distances
+    from tensors import same_span
+
+    for cname, diag in [("tri1", (2, 2, 1)), ("tri2_P1", (2, 1, 1))] + ([] if ctx.quick else [("hcp", (2, 1, 1)), ("mono_P", (2, 1, 1))]):
+        sc = make_supercell(base_cells()[cname], diag)
+        at = atoms_of(sc)
+        N = len(sc["numbers"])
+        dist = min_image_distances(np.asarray(sc["lattice"], float), np.asarray(sc["positions"], float))
+        shells = sorted(set(np.round(dist[dist > 1e-8], 6).tolist()))
+        if len(shells) < 3:
+            continue
+        c1, c2 = (shells[0] + shells[1]) / 2, (shells[-2] + shells[-1]) / 2
+        configs = [{3: c1}, {3: c2}, None, {2: c2, 3: c1}]
+        d = rng.normal(size=(12, N, 3)) * 0.05
+        f = rng.normal(size=(12, N, 3))
+
+        def expanded(b):
+            return np.asarray(b.compression_matrix @ b.basis_set)
+        iso = []
+        for cfg in configs:
+            o = Symfc(at, displacements=d, forces=f, cutoff=None if cfg is None else dict(cfg))
+            try:
+                o.compute_basis_set(orders=[2, 3])
+            except (IndexError, ValueError):
+                iso.append(None)
+                continue
+            iso.append({k: expanded(o.basis_set[k]) for k in (2, 3)})
+        objs = [Symfc(at, displacements=d, forces=f, cutoff=None if cfg is None else dict(cfg)) for cfg in configs]
+        order = list(rng.permutation(len(configs)))
+        for i in order:
+            if iso[i] is None:
+                continue
+            ctx.case({"cell": sc["name"], "multi_object": True, "cutoffs": [None if c is None else {str(k): round(v, 4) for k, v in c.items()} for c in configs], "computed": int(i)}, nontrivial=True)
+            ctx.count("multi-object")
+            try:
+                objs[i].compute_basis_set(orders=[2, 3])
+            except Exception as e:  # noqa: BLE001
+                ctx.fail("oracle", "C12/oracle/multi-object", f"{sc['name']}: object {i} (cutoff {configs[i]}) raised {type(e).__name__} after other objects were created", replay={"cell": sc["name"], "configs": str(configs)}, has_input=True)
+                continue
+            for k in (2, 3):
+                ok, msg = same_span(iso[i][k], expanded(objs[i].basis_set[k]))
+                if not ok:
+                    ctx.fail("oracle", "C12/oracle/multi-object", f"{sc['name']}: object created with cutoff {configs[i]} computes a different order-{k} basis after other objects with cutoffs {[c for j, c in enumerate(configs) if j != i]} were created ({msg})",
+                             replay={"cell": sc["name"], "lattice": sc["lattice"].tolist(), "positions": sc["positions"].tolist(), "numbers": [int(x) for x in sc["numbers"]], "configs": str(configs), "object": int(i), "order": k}, has_input=True)
+
+
 def check(ctx):
     rng = np.random.default_rng(ctx.seed)
+    multi_object(ctx, rng)
     ctx.rule = ("random histories (length 8 quick / 12) over set-displacements / set-forces / hand-over of shared basis sets / compute / solve / run, mostly valid, "
                 "on two small crystals (with and without cutoff), basis sets shared between all objects of a world; non-trivial: history contains a solve or run")
     worlds = [World(rng, "mono_P"), World(rng, "tri2_Pm1", cutoff={3: 4.0}, n_snaps=(14, 14, 18))]
